@@ -151,6 +151,68 @@ class SMutList(Model):
         return SMutList(self.length, self.arr, self.wrap)
 
 
+class SRowList(Model):
+    """python list of equally long numeric rows (arrays / lists) with symbolic length:
+    rows(m, s).  `append` copies the row contents at the time of the call (the repository only
+    appends rows that are not mutated afterwards; aliasing of rows is not modelled)."""
+    tags = frozenset({'list'})
+
+    def __init__(self, length, width, get):
+        self.length = length
+        self.width = width
+        self.get = get          # callable(m, s) -> z3 real
+
+    def py_len(self, it):
+        return self.length
+
+    def py_truth(self, it):
+        return to_num(self.length) != 0
+
+    def row(self, m):
+        g = self.get
+        return SArr((self.width,), (lambda m_: (lambda o: g(m_, o[0])))(m))
+
+    def py_getitem(self, it, idx):
+        if isinstance(idx, slice):
+            raise Unsupported("slice of SRowList")
+        k = norm_index(it, idx, self.length)
+        it.ctx.oblige("safety/index-in-range", z3.And(k >= 0, k < to_num(self.length)))
+        return self.row(k)
+
+    def py_iter(self, it):
+        return SymIter(self.length, self.row)
+
+    def py_getattr(self, it, name):
+        if name == 'append':
+            def app(it_, a, k):
+                row = a[0]
+                if isinstance(row, SMutList):
+                    arr = row.arr
+                    rg = lambda s: z3.Select(arr, s)
+                    w = row.length
+                elif isinstance(row, SArr) and row.rank == 1:
+                    g0 = row.get
+                    rg = lambda s: to_real(g0((s,)))
+                    w = row.shape[0]
+                else:
+                    raise Unsupported("append of %r to a row list" % (row,))
+                if self.width is None:
+                    self.width = w
+                else:
+                    it_.ctx.oblige("safety/rows-have-equal-length", to_num(w) == to_num(self.width))
+                old, L = self.get, to_num(self.length)
+                self.get = lambda m, s: z3.If(m == L, rg(s), old(m, s))
+                self.length = z3.simplify(L + 1)
+            return Builtin('list.append', app)
+        raise Unsupported("list method %s on SRowList" % name)
+
+    def fresh_like(self, it, hint):
+        n = it.ctx.fresh_int(hint + "_len")
+        it.ctx.assume(n >= 0)
+        f = it.ctx.fresh_func(hint, z3.IntSort(), z3.IntSort(), z3.RealSort())
+        return SRowList(n, self.width, lambda m, s: f(m, s))
+
+
 class PropertyProxy(Model):
     """super().prop = value  support"""
 
@@ -200,6 +262,8 @@ class SArr(Model):
     def py_truth(self, it):
         if self.rank == 0:
             return it.truth(self.get(()))
+        if all(isinstance(d, int) and d == 1 for d in self.shape):
+            return it.truth(self.get(tuple(z3.IntVal(0) for _ in self.shape)))
         raise PyRaise(ExcVal('ValueError', ("truth value of an array is ambiguous",)))
 
     def py_iter(self, it):
@@ -558,6 +622,11 @@ def as_array(it, v, dtype=None):
             raise Unsupported("np.array of list of %r" % (probe,))
         el = v.element
         return SArr((v.length,), lambda o: to_num(el(o[0])), 'int' if n.is_int() else 'real')
+    if isinstance(v, SRowList):
+        g = v.get
+        if v.width is None:
+            return SArr((v.length,), lambda o: z3.RealVal(0), 'real')
+        return SArr((v.length, v.width), lambda o: g(o[0], o[1]), 'real')
     if isinstance(v, SMutList):
         arr = v.arr
         rng = arr.sort().range()
@@ -1164,7 +1233,7 @@ class Lib(object):
         it.ctx.assume(n >= 0) if False else None
         zc = to_num(c)
         if zc is None:
-            raise Unsupported("[%r] * n" % (c,))
+            return SList(z3.simplify(z3.If(n >= 0, n, 0)), lambda k: c)
         ln = z3.If(n >= 0, n, 0)
         return SMutList(z3.simplify(ln), z3.K(z3.IntSort(), to_real(zc)))
 
